@@ -1346,3 +1346,30 @@ Proof.
   pose proof (hpe_offline_min_gap _ _ _ _ _ _ _ H Hdom Hd Hlt H1 H2) as G.
   unfold forward_config, enc_refrac in G; simpl in G. rewrite Hr, Hv in G. exact G.
 Qed.
+
+
+(* ------------------------------------------------------------------ the generator attribute *)
+Theorem assign_generator_spec k (s : gstate RN) o :
+  assign_g RN k s (GGen RN o) = (mkG RN (g_enc RN s) o, None).
+Proof. reflexivity. Qed.
+
+Definition is_config_assignment (ga : gassignment RN) : bool := match ga with GA _ _ => true | GGen _ _ => false end.
+
+Lemma assign_g_all_keeps_generator k l : forall s1 : gstate RN,
+  forallb is_config_assignment l = true -> g_gen RN (snd (assign_g_all RN k s1 l)) = g_gen RN s1.
+Proof.
+  induction l as [|ga l IH]; intros s1 Hl; auto. simpl in Hl. apply andb_prop in Hl as [Ha Hl].
+  simpl. destruct (assign_g_all RN k (fst (assign_g RN k s1 ga)) l) as [rest fin] eqn:E. simpl.
+  specialize (IH (fst (assign_g RN k s1 ga)) Hl). rewrite E in IH. simpl in IH. rewrite IH.
+  destruct ga; [reflexivity|discriminate].
+Qed.
+
+(* the generator reads back what was assigned last (None included), whatever is assigned to the other attributes
+   afterwards, accepted or rejected; and assigning the generator touches no other attribute *)
+Theorem generator_last_assigned k (s : gstate RN) o l :
+  forallb is_config_assignment l = true ->
+  g_gen RN (snd (assign_g_all RN k s (GGen RN o :: l))) = o.
+Proof.
+  intros Hl. simpl. destruct (assign_g_all RN k (mkG RN (g_enc RN s) o) l) as [rest fin] eqn:E. simpl.
+  pose proof (assign_g_all_keeps_generator k l (mkG RN (g_enc RN s) o) Hl) as H. rewrite E in H. exact H.
+Qed.
